@@ -404,6 +404,7 @@ def rand_case(rng, big=False):
     A = rand_lattice(rng, M, K, kind)
     N = rng.randint(1, 6)
     spread = rng.choice([2, 4, 6, 12])
+    N = min(N, (2 * spread + 1) ** M)
     pts = []
     while len(pts) < N:
         p = [Fr(rng.randint(-spread, spread)) for _ in range(M)]
